@@ -1,5 +1,6 @@
 import Proofs.Machine.Passthrough
 import Proofs.Machine.GlobalOrderLazy
+import Proofs.Machine.GlobalOrderLazyLog
 import Proofs.Ingest
 import Proofs.AnsiGit
 import Proofs.Gates
@@ -423,6 +424,32 @@ example : (match run {} (["diff --git a/e b/e", "new file mode 100644", "index 0
 example : (match run {} (["diff --git a/m b/m", "old mode 100644", "new mode 100755"].map mkL) with
     | .ok m => m.out.map (fun r => (r.src, r.kind, String.ofList r.text))
     | .error _ => []) = [(3, .blank, ""), (3, .file, "m (mode +x)")] := by decide
+
+/-- **`lazy_file_header_before_submodule_log`** (whole runs). The same for a section that is followed by a submodule
+log (`git diff --submodule=log`): `t` a `Submodule <path> <range>:` line, `mi` the machine when it arrives. The output is
+`timeline mi ++ H ++ rest`: everything rendered for the lines before `t`, then the rows `H` that
+`handle_pending_line_with_diff_name` writes at that moment for the section that ends here (its file header if still
+owed; stamped with the index of `t`), then every other row of `t` — the header showing the `Submodule …` line — and of
+the later lines. (`handle_submodule_log_line` begins with the same two calls as `handle_diff_header_diff_line`; before
+that repair the owed header came after the log, with the mode change on the submodule's header, or was never written.) -/
+theorem lazy_file_header_before_submodule_log {cfg : Cfg} {pre post : List L} {t : L} {mi m : M}
+    (hmc : ∀ x ∈ pre ++ t :: post, startsWith x.text Generated.Markers.mcBegin = false)
+    (hns : NoStray (pre ++ t :: post))
+    (ei : runFrom cfg {} pre = .ok mi) (hd : startsWith t.text Markers.submoduleLog = true) (hc : t.commitRe = false)
+    (e : run cfg (pre ++ t :: post) = .ok m) :
+    ∃ H rest, m.out = timeline mi ++ H ++ rest ∧
+      timeline (pendingDiffName cfg (flushMP (stepInit mi t))) = timeline mi ++ H ∧
+      (∀ r ∈ timeline mi, r.src < pre.length) ∧ (∀ r ∈ H, r.src = pre.length) ∧
+      (∀ r ∈ rest, pre.length ≤ r.src) :=
+  run_lazy_file_header_before_submodule_log hmc hns ei hd hc e
+
+/-- a mode change followed by a submodule log and another section: the owed header (with its mode change) is written
+when the `Submodule …` line (3) arrives, before that line's own header; the log lines pass through -/
+example : (match run {} (["diff --git a/m b/m", "old mode 100644", "new mode 100755", "Submodule sub 1111111..2222222:",
+      "  > subject", "diff --git a/x b/x", "--- a/x", "+++ b/x"].map mkL) with
+    | .ok m => m.out.map (fun r => (r.src, r.kind, String.ofList r.text))
+    | .error _ => []) = [(3, .blank, ""), (3, .file, "m (mode +x)"), (3, .blank, ""),
+      (3, .file, "Submodule sub 1111111..2222222:"), (4, .raw, "  > subject"), (7, .blank, ""), (7, .file, "x")] := by decide
 
 /-- What `lazy_file_header_in_place` also shows: the lazily written header stands AFTER the rows of its
 own section's lines. git's sections without `--- `/`+++ ` lines have no such rows; a hand-made section
